@@ -76,7 +76,17 @@ def run(ctx):
             viol(report, "C02-R1", tn, "gap", "%s::parse does not read its fixed fields contiguously (%s) while write_to emits them back to back" % (
                 tn, "; ".join(gaps[:3])), "%s:%d" % (pb.file, pb.line))
             continue
-        if layout.seq_match(pn, wn):
+        unstored = [(x, y) for x, y in zip(pn, wn) if re.match(r"^[ui]\d+", x) and re.match(r"^[ui]\d+", y) and (":" in x) != (":" in y)] \
+            if layout.seq_match(pn, wn) else []
+        if unstored:
+            x, y = unstored[0]
+            viol(report, "C02-R1", tn, "value-changed", "%s: the integer %s is %s: one side transforms the value (clamp / mask / arithmetic) "
+                 "that the other side passes through unchanged, so it does not survive build-then-parse (parse [%s], write_to [%s])" % (
+                     tn, y if ":" in y else x,
+                     "written from that field but the value parsed is not stored in it unchanged" if ":" in y else
+                     "stored in that field by parse but write_to emits a value computed from it",
+                     " ".join(pn), " ".join(wn)), "%s:%d" % (pb.file, pb.line))
+        elif layout.seq_match(pn, wn):
             report.nontriv("mirror:" + tn)
             report.sample({"type": tn, "parse": " ".join(pn), "write_to": " ".join(wn)}, cap=8)
         else:
